@@ -3,9 +3,9 @@
    validateProxyProtocol, validateBackendFloodgate, validateVia, lite/config Validate and bedrock/config Validate
    in source order, as (function, guard path with the conditions as source text, kind, clause id).
    The translator (translator/configshape.go) regenerates the same list from /repo on every run into
-   Gen/ConfigShape.v; Proofs/C37_shape.v proves the two equal.  The two booleans select the source after
-   fixes/C37-1.diff (ops comparison) and fixes/C37-2.diff (forced-host keys) so that applying a fix keeps the
-   obligation green. *)
+   Gen/ConfigShape.v; Proofs/C37_shape.v proves it equal to expected_sites true true.  The two booleans select
+   the source with fix commit d6c5881 (ops comparison) and ad3d3c8 (forced-host keys); today's code has both,
+   false/false is the pre-fix text. *)
 From Coq Require Import List String.
 Import ListNotations.
 Open Scope string_scope.
